@@ -216,10 +216,12 @@ class FileCache:
         """
         self.path = os.path.expanduser(path)
         # create the path if it does not exist
-        if not os.path.exists(path):
-            os.makedirs(path, exist_ok=True)
+        if not os.path.exists(self.path):
+            os.makedirs(self.path, exist_ok=True)
 
-        self.config = FileCacheConfig(size_GB, parallel, allow_for_missing_files, path)
+        self.config = FileCacheConfig(
+            size_GB, parallel, allow_for_missing_files, self.path
+        )
 
         # Some counters to keep track of total cache misses, hits and
         # evictions. No downstream use right now/
